@@ -462,7 +462,21 @@ type watch struct {
 	count atomic.Int64
 }
 
+// FirstCalls is the menu of the fresh-process call-order check.
+func FirstCalls() []fw.Call {
+	var out []fw.Call
+	for _, in := range []string{"module example.com/m\n\ngo 1.21\n\nrequire a.com/x v1.0.0 // indirect\n", "module a.b/c\nfrobnicate x\n", "go 1.21\n\nuse ./a\n", "module \"unterminated\n", "require (\n\tmodule v1.0.0\n)\nmodule example.com/m\n", "\xef\xbb\xbfmodule a.b/c\n", ""} {
+		in := in
+		out = append(out, fw.Call{Name: fmt.Sprintf("parsers(%q)", in), F: func() string {
+			res := oneInput([]byte(in))
+			return fmt.Sprint(res.msg, res.class, res.strictOK, res.laxOK, res.workOK, res.synOK)
+		}})
+	}
+	return out
+}
+
 func Run(r *fw.Run) {
+	defer fw.FirstCallOrders(r, r.ID, FirstCalls(), nil)
 	L := r.Pick(6, 7)
 	D := r.Pick(4, 5)
 	K := r.Pick(2, 3)
